@@ -427,6 +427,9 @@ def run(tier, seed):
 
     operand_integrity(chk, small, fx3, names3, rng, 120 if quick else 1500)
     extremes(chk, seed)
+    # code -> spec: programs of the stack machine run with the real operators, validated step by step
+    import obsexpr_trace
+    obsexpr_trace.phase(chk, tier, random.Random(seed + 81))
 
     # ---- negative controls (they presuppose a baseline that holds) -------------------
     if chk.violations:
